@@ -174,3 +174,89 @@ class attach:
     def __exit__(self, *exc):
         Tap.listener = self.prev
         return False
+
+
+# ------------------------------------------------------------------------------------------------ dirty allocator
+# np.empty / np.empty_like promise nothing about the contents of what they return.  On a real machine a fresh large
+# block is usually zero pages and a small one holds whatever the last array of that size left behind, so a read of
+# never-written memory looks fine in tests and varies with the history of the process.  The simulator owns this source
+# of nondeterminism: under `dirty_allocator(pattern)` every such array is handed out filled with a chosen pattern.
+# Code that writes before it reads is unaffected.
+class _Alloc:
+    orig_empty = None
+    orig_empty_like = None
+    pattern = None  # None = untouched; int 0..255 = that byte; ("random", seed) = seeded bytes
+    count = 0
+    busy = False
+
+
+def _soil(a):
+    p = _Alloc.pattern
+    if p is None or _Alloc.busy or a.size == 0 or not a.flags.writeable or a.nbytes > (1 << 24):
+        return a
+    _Alloc.busy = True  # numpy's own routines look np.empty up too
+    try:
+        _Alloc.count += 1
+        if isinstance(p, tuple):
+            import random
+
+            noise = np.frombuffer(random.Random(p[1] * 1000003 + _Alloc.count).randbytes(a.nbytes), dtype=np.uint8)
+        else:
+            noise = p
+        if a.dtype == np.bool_:
+            a.reshape(-1)[:] = (noise & 1).astype(np.bool_) if isinstance(p, tuple) else bool(p & 1)
+        else:
+            a.reshape(-1).view(np.uint8)[:] = noise
+    except (ValueError, TypeError, AttributeError):  # object arrays, non-contiguous results: left alone
+        pass
+    finally:
+        _Alloc.busy = False
+    return a
+
+
+def install_allocator():
+    if _Alloc.orig_empty is not None:
+        return
+    _Alloc.orig_empty = np.empty
+    _Alloc.orig_empty_like = np.empty_like
+
+    def empty(*args, **kw):
+        return _soil(_Alloc.orig_empty(*args, **kw))
+
+    def empty_like(*args, **kw):
+        return _soil(_Alloc.orig_empty_like(*args, **kw))
+
+    empty.__name__ = "empty"
+    empty_like.__name__ = "empty_like"
+    np.empty = empty
+    np.empty_like = empty_like
+
+
+PATTERNS = [None, 0x00, 0xFF, 0xA5, 0x01, ("random", 0)]
+
+
+class dirty_allocator:
+    def __init__(self, pattern):
+        self.pattern = pattern
+
+    def __enter__(self):
+        require_interpreted()
+        install_allocator()
+        self.prev = _Alloc.pattern
+        _Alloc.pattern = self.pattern
+        _Alloc.count = 0  # the contents are a function of the run, not of the process
+        return self
+
+    def __exit__(self, *exc):
+        _Alloc.pattern = self.prev
+        return False
+
+
+def draw_pattern(ch, label="alloc"):
+    """Per run: which contents the allocator hands out (swarm style; 1/3 of the runs leave it alone)."""
+    k = ch.choose(9, label)
+    if k < 3:
+        return None
+    if k < 8:
+        return [0x00, 0xFF, 0xA5, 0x01, 0x80][k - 3]
+    return ("random", ch.choose(1 << 16, label + ".seed"))
